@@ -265,10 +265,17 @@ class C04(vlib.Driver):
                     else:
                         ops.append(["reinit"])
                 cases.append({"kind": "e2e", "block": blk, "seed": nseed, "ops": ops}); nseed += 1
+        # ---- whole agents through Mutations.mutation
+        nag = 4 if tier == "quick" else 25
+        for algo in B.AGENTS:
+            for i in range(nag):
+                cases.append({"kind": "agent", "algo": algo, "seed": 100 * len(cases) % 9973 + i, "rounds": 1 + i % 3})
         return cases
 
     # ---------------------------------------------------------------- implementation
     def run_impl(self, case):
+        if case["kind"] == "agent":
+            return self.run_agent(case)
         return self.run_unit(case) if case["kind"] == "unit" else self.run_e2e(case)
 
     def run_unit(self, case):
@@ -368,6 +375,33 @@ class C04(vlib.Driver):
             obs["steps"].append(rec)
         return obs
 
+    def run_agent(self, case):
+        """a real agent through Mutations.mutation (architecture mutations only): every evaluation network of the
+        registry before/after each round, every shared (target) network after it"""
+        torch.manual_seed(case["seed"]); np.random.seed(case["seed"])
+        agent = B.build_agent(case["algo"])
+        groups = B.agent_groups(agent)
+        for gi, (ev, _) in enumerate(groups):
+            randomise(getattr(agent, ev), 7000 + case["seed"] * 17 + gi)
+        mut = Mutations(0, 1, 0.5, 0, 0, 0, rand_seed=case["seed"])
+        obs = {"groups": [[ev, sh] for ev, sh in groups], "init": {ev: snap(getattr(agent, ev)) for ev, _ in groups}, "rounds": []}
+        for r in range(case["rounds"]):
+            arch_b = {ev: canon(getattr(agent, ev).init_dict) for ev, _ in groups}
+            [agent] = mut.mutation([agent])
+            rec = {"mut": str(agent.mut), "evals": {}, "shared": {}}
+            for ev, shs in groups:
+                net = getattr(agent, ev)
+                rec["evals"][ev] = {"after": snap(net), "same_arch": canon(net.init_dict) == arch_b[ev], "applied": str(net.last_mutation_attr)}
+                for sh in shs:
+                    rec["shared"][sh] = {"after": snap(getattr(agent, sh)), "same_arch": canon(getattr(agent, sh).init_dict) == canon(net.init_dict)}
+            obs["rounds"].append(rec)
+            if r + 1 < case["rounds"]:
+                for gi, (ev, _) in enumerate(groups):       # "training" between generations
+                    randomise(getattr(agent, ev), 9000 + case["seed"] * 17 + gi + 100 * r)
+                for ev, _ in groups:
+                    rec["evals"][ev]["trained"] = snap(getattr(agent, ev))
+        return obs
+
     def _known(self):
         if not hasattr(self, "_known_cache"):
             self._known_cache = vlib.load_known()[0]
@@ -385,6 +419,28 @@ class C04(vlib.Driver):
                 return f"check_preserve {cq_named(obs['old'])} {cq_named(obs['new'])} {cq_named(obs['res'])}"
             res = "None" if obs["res"] is None else f"(Some {cq_named(obs['res'])})"
             return f"check_shrink {cq_named(obs['old'])} {cq_named(obs['new'])} {res}"
+        if case["kind"] == "agent":
+            terms = []
+            for ev, shs in obs["groups"]:
+                names, binds = {}, []
+
+                def ref(snapshot):
+                    k = json.dumps(snapshot)
+                    if k not in names:
+                        names[k] = f"n{len(names)}"
+                        binds.append(f"let {names[k]} := {cq_named(snapshot)} in")
+                    return names[k]
+                init = ref(obs["init"][ev])
+                steps = []
+                for rec in obs["rounds"]:
+                    e = rec["evals"][ev]
+                    steps.append(f"{'Same' if e['same_arch'] else 'Mut'} {ref(e['after'])}")
+                    for sh in shs:
+                        steps.append(f"Clone {ref(rec['shared'][sh]['after'])}")
+                    if "trained" in e:
+                        steps.append(f"Rand {ref(e['trained'])}")
+                terms.append("(" + " ".join(binds) + f" check_chain {init} [{'; '.join(steps)}])")
+            return " && ".join(terms)
         # The model describes the repaired semantics. Where the oracle reports a failing step that is a LISTED
         # known finding (defect not repaired on this tree yet), the chain is compared up to that step only;
         # any other oracle failure leaves the comparison in place (it is reported with its input anyway).
@@ -473,6 +529,27 @@ class C04(vlib.Driver):
             if obs["old_after"] != obs["old"]:
                 out.append(Violation("old-intact", f"unit:{mode}:old-net-modified", "the old network's parameters were modified"))
             return out
+        if case["kind"] == "agent":
+            algo = case["algo"]
+            for ev, shs in obs["groups"]:
+                cur = obs["init"][ev]
+                for r, rec in enumerate(obs["rounds"]):
+                    e = rec["evals"][ev]
+                    where = f"{algo} round {r} (agent.mut={rec['mut']}) network {ev} (applied {e['applied']})"
+                    for clause, k, detail in self.common_slice_violations(cur, e["after"]):
+                        out.append(Violation(clause, f"agent:{clause}:{algo}:{ev}:{category(k)}", f"{where}: {detail}"))
+                        break
+                    if e["same_arch"] and e["after"] != cur:
+                        out.append(Violation("same-arch-params", f"agent:same-arch-params:{algo}:{ev}", f"{where}: init_dict unchanged but parameters differ"))
+                    for sh in shs:
+                        srec = rec["shared"][sh]
+                        if srec["after"] != e["after"] or not srec["same_arch"]:
+                            out.append(Violation("shared-reinit", f"agent:shared-not-equal:{algo}:{sh}",
+                                                 f"{where}: shared network {sh} re-created by reinit_from_mutated does not carry the parameters / init_dict of {ev}"))
+                    if out:
+                        return out
+                    cur = e.get("trained", e["after"])
+            return out
         cur = obs["init"]
         blk = case["block"]
         for oi, (op, rec) in enumerate(zip(case["ops"], obs["steps"])):
@@ -527,6 +604,8 @@ class C04(vlib.Driver):
 
     # ---------------------------------------------------------------- evidence helpers
     def key(self, case):
+        if case["kind"] == "agent":
+            return super().key(case)                   # the seed determines the sampled mutations
         return super().key({k: v for k, v in case.items() if k != "seed"})
 
     @staticmethod
@@ -534,6 +613,8 @@ class C04(vlib.Driver):
         return [(k, tuple(s)) for k, s, _ in entries]
 
     def nontrivial(self, case, obs):
+        if case["kind"] == "agent":
+            return any(self._sig(rec["evals"][ev]["after"]) != self._sig(obs["init"][ev]) for rec in obs["rounds"] for ev, _ in obs["groups"])
         if case["kind"] == "unit":
             return self._sig(obs["old"]) != self._sig(obs["new"])
         cur = self._sig(obs["init"])
@@ -546,6 +627,12 @@ class C04(vlib.Driver):
         return False
 
     def classify(self, case, obs):
+        if case["kind"] == "agent":
+            labs = ["kind=agent", f"algo={case['algo']}"]
+            for rec in obs["rounds"]:
+                labs.append(f"agent-mut={rec['mut'].split('.')[-1]}")
+                labs += [f"agent-shared-reinit" for _ in rec["shared"]]
+            return labs
         if case["kind"] == "unit":
             labs = ["kind=unit", f"fn={case['mode']}"]
             od = dict((k, s) for k, s in self._sig(obs["old"]))
@@ -582,6 +669,10 @@ class C04(vlib.Driver):
         return labs
 
     def neighbours(self, case, rng):
+        if case["kind"] == "agent":
+            if case["rounds"] > 1:
+                yield dict(case, rounds=case["rounds"] - 1)
+            return
         if case["kind"] == "e2e":
             for n in range(1, len(case["ops"])):
                 c = dict(case); c["ops"] = case["ops"][:n]
